@@ -34,6 +34,10 @@ const mhSchema = `type Users { name: String age: Int points: Int @crdt(type: pco
 // the same collection with secondary indexes (VERIF_MERGE_INDEXED=1): merges must keep them in step (C07)
 const mhSchemaIndexed = `type Users { name: String @index age: Int @index points: Int @crdt(type: pcounter) }`
 
+// VERIF_MERGE_NOPOINTS=1: the document is created without a counter value and every replica increments by the
+// same amount, so that two concurrent updates differ in nothing but their identity
+func mhNoPoints() bool { return os.Getenv("VERIF_MERGE_NOPOINTS") == "1" }
+
 func mhActiveSchema() string {
 	if os.Getenv("VERIF_MERGE_INDEXED") == "1" {
 		return mhSchemaIndexed
@@ -451,7 +455,7 @@ func bAlphabet(k int) []bOp {
 	var ops []bOp
 	for r := 0; r < k; r++ {
 		ops = append(ops, bOp{kind: "name", r: r, val: "x"}, bOp{kind: "name", r: r, val: "y"}, bOp{kind: "name", r: r, val: nil},
-			bOp{kind: "inc", r: r, val: int64(1 + r)}, bOp{kind: "del", r: r})
+			bOp{kind: "inc", r: r, val: mhIncOf(r)}, bOp{kind: "del", r: r})
 		for t := 0; t < k; t++ {
 			if t != r {
 				ops = append(ops, bOp{kind: "sync", r: r, to: t})
@@ -459,6 +463,13 @@ func bAlphabet(k int) []bOp {
 		}
 	}
 	return ops
+}
+
+func mhIncOf(r int) int64 {
+	if mhNoPoints() {
+		return 5
+	}
+	return int64(1 + r)
 }
 
 type bResult struct {
@@ -482,7 +493,11 @@ func runHistory(t *testing.T, ctx context.Context, k int, hist []bOp) (res bResu
 	var docID string
 	for i := range reps {
 		reps[i] = newReplica(t, ctx, fmt.Sprintf("r%d", i), mhActiveSchema())
-		id, err := reps[i].create(ctx, `{"name":"a","age":1,"points":10}`)
+		genesis := `{"name":"a","age":1,"points":10}`
+		if mhNoPoints() {
+			genesis = `{"name":"a","age":1}`
+		}
+		id, err := reps[i].create(ctx, genesis)
 		if err != nil {
 			t.Fatal(err)
 		}
@@ -590,6 +605,12 @@ func runHistory(t *testing.T, ctx context.Context, k int, hist []bOp) (res bResu
 		}
 	}
 	want := fmt.Sprintf("points=%d;", 10+sumInc)
+	if mhNoPoints() {
+		want = fmt.Sprintf("points=%d;", sumInc)
+		if sumInc == 0 {
+			want = ""
+		}
+	}
 	for i, r := range reps {
 		v := r.view(ctx, docID)
 		if !strings.Contains(v, want) {
@@ -666,6 +687,31 @@ func dagProblems(ctx context.Context, r *replica, docID string) []string {
 	// walk the composite graph from the heads
 	parentOf := map[cid.Cid]bool{}
 	seen := map[cid.Cid]*coreblock.Block{}
+	// field-level commits reachable from the merged composites, per field name
+	fieldSeen := map[string]map[cid.Cid]bool{}
+	fieldParent := map[cid.Cid]bool{}
+	var walkField func(name string, c cid.Cid)
+	walkField = func(name string, c cid.Cid) {
+		if fieldSeen[name] == nil {
+			fieldSeen[name] = map[cid.Cid]bool{}
+		}
+		if fieldSeen[name][c] {
+			return
+		}
+		fieldSeen[name][c] = true
+		raw, err := bs.Get(ctx, c)
+		if err != nil {
+			return
+		}
+		fb, err := coreblock.GetFromBytes(raw.RawData())
+		if err != nil {
+			return
+		}
+		for _, h := range fb.Heads {
+			fieldParent[h.Cid] = true
+			walkField(name, h.Cid)
+		}
+	}
 	var walk func(c cid.Cid) uint64
 	walk = func(c cid.Cid) uint64 {
 		if b, ok := seen[c]; ok {
@@ -700,7 +746,9 @@ func dagProblems(ctx context.Context, r *replica, docID string) []string {
 		for _, l := range b.Links {
 			if _, err := bs.Get(ctx, l.Link.Cid); err != nil {
 				ps = append(ps, fmt.Sprintf("field link %s of %s does not resolve", l.Link.Cid, c))
+				continue
 			}
+			walkField(l.Name, l.Link.Cid)
 		}
 		if b.Delta.GetPriority() != maxp+1 {
 			ps = append(ps, fmt.Sprintf("commit %s has height %d, parents' maximum is %d", c, b.Delta.GetPriority(), maxp))
@@ -713,6 +761,37 @@ func dagProblems(ctx context.Context, r *replica, docID string) []string {
 	for _, h := range heads {
 		if parentOf[h] {
 			ps = append(ps, fmt.Sprintf("head %s is named as parent by another merged commit", h))
+		}
+	}
+	// the latest commits of every field are exactly its merged commits that no other commit names as parent
+	names := make([]string, 0, len(fieldSeen))
+	for n := range fieldSeen {
+		names = append(names, n)
+	}
+	sort.Strings(names)
+	for _, n := range names {
+		var want []string
+		for c := range fieldSeen[n] {
+			if !fieldParent[c] {
+				want = append(want, c.String())
+			}
+		}
+		sort.Strings(want)
+		out := r.db.ExecRequest(ctx, fmt.Sprintf(`query { latestCommits(docID: %q, fieldName: %q) { cid } }`, docID, n))
+		if len(out.GQL.Errors) > 0 {
+			ps = append(ps, fmt.Sprintf("latestCommits of field %s: %v", n, out.GQL.Errors[0]))
+			continue
+		}
+		var got []string
+		if m, ok := out.GQL.Data.(map[string]any); ok {
+			rows, _ := m["latestCommits"].([]map[string]any)
+			for _, row := range rows {
+				got = append(got, fmt.Sprint(row["cid"]))
+			}
+		}
+		sort.Strings(got)
+		if strings.Join(got, ",") != strings.Join(want, ",") {
+			ps = append(ps, fmt.Sprintf("latest commits of field %s are %v, the merged commits of that field without a child are %v", n, got, want))
 		}
 	}
 	return ps
@@ -757,7 +836,7 @@ func TestGovcBoundedMerge(t *testing.T) {
 				local = append(local, o)
 			}
 		}
-		at := func(o bOp, r int) bOp { o.r = r; if o.kind == "inc" { o.val = int64(1 + r) }; return o }
+		at := func(o bOp, r int) bOp { o.r = r; if o.kind == "inc" { o.val = mhIncOf(r) }; return o }
 		for _, a := range local {
 			for _, b := range local {
 				for _, c := range local {
@@ -771,6 +850,31 @@ func TestGovcBoundedMerge(t *testing.T) {
 						if len(res.Problems) > 0 {
 							bad = append(bad, res)
 						}
+					}
+				}
+			}
+		}
+	}
+	// late joiner on three replicas: "r0.name=x; sync(r0>r1); r0.a; r1.b; sync(r1>r0); r0.c" - the third replica
+	// has seen nothing and receives, in one go, a history whose newest commit has two parents that share an
+	// ancestor it has not merged either
+	if os.Getenv("VERIF_BOUND_FAMILIES") != "0" && k == 2 {
+		var local []bOp
+		for _, o := range bAlphabet(3) {
+			if o.kind != "sync" && o.r == 0 {
+				local = append(local, o)
+			}
+		}
+		at := func(o bOp, r int) bOp { o.r = r; if o.kind == "inc" { o.val = mhIncOf(r) }; return o }
+		for _, a := range local {
+			for _, b := range local {
+				for _, c := range local {
+					h := []bOp{{kind: "name", r: 0, val: "x"}, {kind: "sync", r: 0, to: 1}, at(a, 0), at(b, 1), {kind: "sync", r: 1, to: 0}, at(c, 0)}
+					res := runHistory(t, ctx, 3, h)
+					cases++
+					distinct[res.History] = true
+					if len(res.Problems) > 0 {
+						bad = append(bad, res)
 					}
 				}
 			}
